@@ -64,6 +64,7 @@ def scan(ctx, envs, run, families, t3, nontrivial, what_t3, max_report=6):
             fields["_form"] = form
             fields["_a"] = ia
             fields["_b"] = ib
+            fields["_model"] = b          # the model's line for the same case (oracles that compare derived observations)
             if sid in found_shapes or (sid in plain_shapes and len(found_shapes) >= max_report):
                 continue
             why = t3(sid, fields, x, aa)
